@@ -93,16 +93,16 @@ impl Check for C09 {
         ]
     }
     fn cases(&self, tier: Tier) -> u64 {
-        tier.pick(320, 8_000)
+        tier.pick(640, 8_000)
     }
     fn min_nontrivial(&self, tier: Tier) -> u64 {
-        tier.pick(150, 4_000)
+        tier.pick(300, 4_000)
     }
     fn shard_budget(&self, tier: Tier) -> std::time::Duration {
         tier.pick(std::time::Duration::from_secs(200), std::time::Duration::from_secs(2400))
     }
     fn required_counters(&self, _tier: Tier) -> Vec<&'static str> {
-        vec!["kind:Chunk", "kind:Pad", "kind:Tx", "kind:Reg", "advertisements-checked", "divergent-keys:Reg", "divergent-keys:Tx", "divergent-keys:Pad", "advertiser:unknown", "advertiser:known-not-closest", "advertiser:closest", "chunks-replicated", "nodes:3", "ranged-cases"]
+        vec!["kind:Chunk", "kind:Pad", "kind:Tx", "kind:Reg", "advertisements-checked", "divergent-keys:Reg", "divergent-keys:Tx", "divergent-keys:Pad", "advertiser:unknown", "advertiser:known-not-closest", "advertiser:closest", "chunks-replicated", "nodes:3", "ranged-cases", "seeding:direct-put", "seeding:through-validation"]
     }
     fn run_case(&self, cx: &mut Cx) {
         if cx.index % 4 == 3 {
@@ -218,8 +218,21 @@ fn convergence_case(cx: &mut Cx) {
     // ---- seed while partitioned
     sim.partitioned = true;
     let mut plan_sig: Vec<(usize, usize, usize)> = vec![];
+    // In 40% of the cases the content is placed directly in the stores (what a node does once it HAS accepted a record,
+    // i.e. the PutLocalRecord command), one version per holder: the exchange under test is then the only user of
+    // the replication-side validation, so a record that path wrongly refuses cannot hide by never being seeded.
+    let direct = cx.rng.gen_bool(0.4);
+    cx.count(if direct { "seeding:direct-put" } else { "seeding:through-validation" });
     for (ki, kc) in keys.iter().enumerate() {
         for i in 0..n {
+            if direct {
+                if let Some(rec) = kc.seeds[i].last() {
+                    let _g = sim.rt.enter();
+                    let _ = sim.nodes[i].drv.verif_handle_local_cmd(ant_networking::verif::LocalSwarmCmd::PutLocalRecord { record: rec.clone() });
+                    plan_sig.push((ki, i, rec.value.len()));
+                }
+                continue;
+            }
             for (si, rec) in kc.seeds[i].iter().enumerate() {
                 let node = sim.nodes[i].node.clone().expect("node layer");
                 let unpaid_update = si > 0 && matches!(kc.kind, Kind::Reg | Kind::Pad) && cx.rng.gen_bool(0.4);
